@@ -1,1 +1,278 @@
-/-! # C14 — property theorems (stub) -/
+import Okane.Lemmas.Diag
+/-!
+# C14 — diagnostics name the right file and line
+
+All positions are byte positions in the file's UTF-8 text (`Okane.Diag`).  What the *parser* has to supply
+(tracked spans lie inside the entry span; the entry span is a valid slice; `startPos ≤ errPos ≤ |file|`) enters
+as explicit hypotheses: they are facts about the parser model (C05), checked on the real parser by the C14
+correspondence stream for every generated case.
+-/
+namespace Okane.Diag
+
+/-! ## C14_line -/
+
+/-- **C14_line.** `compute_line_number(t, p)` is one plus the number of line-feed bytes before byte position
+`p`, for every text and every in-range position.  Nothing else in the text matters: carriage returns and the
+bytes of multi-byte characters are simply not line feeds. -/
+theorem C14_line (t : Bytes) (p : Nat) (hp : p ≤ t.length) :
+    computeLineNumber t p = .ok (1 + lfBefore t p) := by
+  simp [computeLineNumber, hp, countLF_take_eq_lfBefore t p hp]
+
+/-- **C14_line**, in characters: at the byte position that follows the first `k` characters of a text the
+line number is one plus the number of `'\n'` *characters* among them — whatever else (CR, multi-byte
+characters) the text contains. -/
+theorem C14_line_chars (pre post : List Char) :
+    computeLineNumber (encode (pre ++ post)) (encode pre).length = .ok (1 + pre.count '\n') := by
+  have hle : (encode pre).length ≤ (encode (pre ++ post)).length := by
+    rw [encode_append]; simp
+  simp only [computeLineNumber, hle, ↓reduceIte]
+  rw [encode_append, List.take_left' rfl, countLF_encode]
+
+/-- positions out of range are the assert's panic (the callers never pass one: `C06`). -/
+theorem computeLineNumber_out_of_range (t : Bytes) (p : Nat) (hp : t.length < p) :
+    ∃ s, computeLineNumber t p = .panic s := by
+  refine ⟨"compute_line_number: assert pos <= s.len()", ?_⟩
+  simp only [computeLineNumber]
+  rw [if_neg (by omega)]
+
+/-! ## C14_bookkeep -/
+
+/-- the snippet's line numbering agrees with the file's: position `q` of the entry text is on the line of
+file position `span.start + q`. -/
+theorem snippetLine_eq_file_line (c : PCtx) (hv : c.validSlice = true) (q : Nat)
+    (hq : q ≤ c.span.stop - c.span.start) :
+    computeLineNumber c.initial (c.span.start + q) =
+      .ok (snippetLine (1 + countLF (c.initial.take c.span.start))
+            ((c.initial.take c.span.stop).drop c.span.start) q) := by
+  simp only [PCtx.validSlice, Bool.and_eq_true, decide_eq_true_eq] at hv
+  obtain ⟨⟨⟨h1, h2⟩, _⟩, _⟩ := hv
+  have hle : c.span.start + q ≤ c.initial.length := by omega
+  simp only [computeLineNumber, hle, ↓reduceIte, snippetLine]
+  congr 1
+  -- take (s+q) initial = take s initial ++ take q (drop s (take stop initial))
+  have hsplit : c.initial.take (c.span.start + q) =
+      c.initial.take c.span.start ++ ((c.initial.take c.span.stop).drop c.span.start).take q := by
+    rw [List.take_add]
+    congr 1
+    rw [List.drop_take, List.take_take]
+    congr 1
+    omega
+  rw [hsplit, countLF_append]; omega
+
+/-- **C14_bookkeep.**  For an entry whose span is a valid slice of its file and a book-keeping error whose
+tracked spans lie inside the entry span (both are what `with_span` yields):
+* the error context is built without panic, its `line_start` is the line of the entry's first byte in that
+  file, its text is the entry's slice;
+* every annotated range is `⊆ [0, |entry text|]` (start ≤ end ≤ length), and is the tracked span shifted by
+  the entry start (for errors without tracked spans: the whole text);
+* the line the renderer shows for any annotated position is the file's line of that byte, which lies between
+  the entry's first line and the line of the entry's end. -/
+theorem C14_bookkeep {π : Type} (path : π) (c : PCtx) (e : BkSpans)
+    (hv : c.validSlice = true) (hin : ∀ r ∈ e.tracked, r.within c.span) :
+    ∃ ctx first last anns,
+      ErrorContext.new path c = .ok ctx ∧ ctx.path = path ∧
+      computeLineNumber c.initial c.span.start = .ok first ∧ ctx.lineStart = first ∧
+      computeLineNumber c.initial c.span.stop = .ok last ∧
+      ctx.text.length = c.span.stop - c.span.start ∧
+      ctx.annotations e = .ok anns ∧
+      (∀ r ∈ anns, r.start ≤ r.stop ∧ r.stop ≤ ctx.text.length) ∧
+      (e ≠ .other → anns = e.tracked.map fun r => ⟨r.start - c.span.start, r.stop - c.span.start⟩) ∧
+      (∀ r ∈ anns, ∀ q, r.start ≤ q → q ≤ r.stop →
+        computeLineNumber c.initial (c.span.start + q) = .ok (snippetLine ctx.lineStart ctx.text q) ∧
+        first ≤ snippetLine ctx.lineStart ctx.text q ∧ snippetLine ctx.lineStart ctx.text q ≤ last) := by
+  obtain ⟨text, htext, hlen, htextEq⟩ := asStr_length c hv
+  have hv' := hv
+  simp only [PCtx.validSlice, Bool.and_eq_true, decide_eq_true_eq] at hv'
+  obtain ⟨⟨⟨h1, h2⟩, _⟩, _⟩ := hv'
+  have hstart : c.span.start ≤ c.initial.length := by omega
+  let first := 1 + countLF (c.initial.take c.span.start)
+  let last := 1 + countLF (c.initial.take c.span.stop)
+  have hnew : ErrorContext.new path c = .ok ⟨path, first, text, c.span⟩ := by
+    simp [ErrorContext.new, PCtx.computeLineStart, computeLineNumber, hstart, htext, first]
+  -- annotations
+  have hanns : ∃ anns, (ErrorContext.annotations (⟨path, first, text, c.span⟩ : ErrorContext π) e) = .ok anns ∧
+      (∀ r ∈ anns, r.start ≤ r.stop ∧ r.stop ≤ text.length) ∧
+      (e ≠ .other → anns = e.tracked.map fun r => ⟨r.start - c.span.start, r.stop - c.span.start⟩) := by
+    have hres := resolveAll_within c.span e.tracked hin
+    have hbound : ∀ r ∈ (e.tracked.map fun r => (⟨r.start - c.span.start, r.stop - c.span.start⟩ : Range)),
+        r.start ≤ r.stop ∧ r.stop ≤ text.length := by
+      intro r hr
+      simp only [List.mem_map] at hr
+      obtain ⟨r0, hr0, rfl⟩ := hr
+      obtain ⟨a, b, d⟩ := hin r0 hr0
+      simp only; omega
+    cases e with
+    | other =>
+      refine ⟨[⟨0, text.length⟩], by simp [ErrorContext.annotations], ?_, by simp⟩
+      intro r hr; simp at hr; subst hr; simp
+    | undeducible a b => exact ⟨_, by simpa [ErrorContext.annotations] using hres, hbound, fun _ => rfl⟩
+    | assertion a b => exact ⟨_, by simpa [ErrorContext.annotations] using hres, hbound, fun _ => rfl⟩
+    | zeroAmountWithExchange a => exact ⟨_, by simpa [ErrorContext.annotations] using hres, hbound, fun _ => rfl⟩
+    | zeroExchangeRate a => exact ⟨_, by simpa [ErrorContext.annotations] using hres, hbound, fun _ => rfl⟩
+    | exchangeWithAmountCommodity a b =>
+      exact ⟨_, by simpa [ErrorContext.annotations] using hres, hbound, fun _ => rfl⟩
+  obtain ⟨anns, hann, hb, hshift⟩ := hanns
+  refine ⟨⟨path, first, text, c.span⟩, first, last, anns, hnew, rfl, ?_, rfl, ?_, hlen, hann, hb, hshift, ?_⟩
+  · simp [computeLineNumber, hstart, first]
+  · simp [computeLineNumber, h2, last]
+  · intro r hr q hq1 hq2
+    have hq : q ≤ c.span.stop - c.span.start := by
+      have := (hb r hr).2; omega
+    have hline := snippetLine_eq_file_line c hv q hq
+    rw [← htextEq] at hline
+    refine ⟨hline, ?_, ?_⟩
+    · simp only [snippetLine]; omega
+    · -- monotone: line at start+q ≤ line at stop
+      have hmono := countLF_take_le c.initial (c.span.start + q) c.span.stop (by omega)
+      have hle : c.span.start + q ≤ c.initial.length := by omega
+      have h3 : computeLineNumber c.initial (c.span.start + q) =
+          .ok (1 + countLF (c.initial.take (c.span.start + q))) := by
+        simp [computeLineNumber, hle]
+      rw [h3] at hline
+      injection hline with hline
+      show snippetLine first text q ≤ last
+      rw [← hline]
+      show 1 + countLF (c.initial.take (c.span.start + q)) ≤ 1 + countLF (c.initial.take c.span.stop)
+      omega
+
+/-! ## C14_syntax -/
+
+/-- **C14_syntax.**  For a parse failure with `startPos ≤ errPos ≤ |file|` (checkpoint before the separator,
+position where the failing parser stopped):
+* `line_start` is the line of the checkpoint, i.e. the line where the iterator resumed;
+* the snippet is the rest of the file from the checkpoint, so the error offset `errPos - startPos` denotes file
+  position `errPos` exactly — between the entry start and where parsing stopped, for any entry start in
+  `[startPos, errPos]`;
+* the annotated span starts there, has `start ≤ end ≤ |snippet|`, ends at the next char boundary (nothing in
+  between is one) or is empty at end of input;
+* the line the renderer shows for the error is the file's line of `errPos`, between `line_start` and the line
+  where parsing stopped. -/
+theorem C14_syntax (initial : Bytes) (startPos errPos : Nat)
+    (h1 : startPos ≤ errPos) (h2 : errPos ≤ initial.length) :
+    ∃ pe stopLine,
+      parseErrorNew (parseErrorFuel initial) initial startPos errPos = .ok pe ∧
+      computeLineNumber initial startPos = .ok pe.lineStart ∧
+      pe.input = initial.drop startPos ∧
+      startPos + pe.errorSpan.start = errPos ∧
+      pe.errorSpan.start ≤ pe.errorSpan.stop ∧ pe.errorSpan.stop ≤ pe.input.length ∧
+      (errPos < initial.length →
+        pe.errorSpan.start < pe.errorSpan.stop ∧ isCharBoundary pe.input pe.errorSpan.stop = true ∧
+        ∀ x, pe.errorSpan.start < x → x < pe.errorSpan.stop → isCharBoundary pe.input x = false) ∧
+      (errPos = initial.length → pe.errorSpan.stop = pe.errorSpan.start) ∧
+      computeLineNumber initial errPos = .ok stopLine ∧
+      snippetLine pe.lineStart pe.input pe.errorSpan.start = stopLine ∧
+      pe.lineStart ≤ stopLine := by
+  have hs : startPos ≤ initial.length := by omega
+  have hinput : (initial.drop startPos).length = initial.length - startPos := by simp
+  obtain ⟨r, hr⟩ := findBoundary_terminates (initial.drop startPos) (parseErrorFuel initial) (errPos - startPos + 1)
+    (by rw [hinput]; show initial.length - startPos + 2 ≤ initial.length + 1 + (errPos - startPos + 1); omega)
+    (by rw [hinput]; omega)
+  have hspec := findBoundary_spec _ _ _ _ hr
+  have hnew : parseErrorNew (parseErrorFuel initial) initial startPos errPos =
+      .ok ⟨1 + countLF (initial.take startPos), ⟨errPos - startPos, r.getD (errPos - startPos)⟩,
+        initial.drop startPos⟩ := by
+    simp only [parseErrorNew]
+    rw [if_neg (by omega)]
+    simp [computeLineNumber, hs, hr]
+  refine ⟨_, 1 + countLF (initial.take errPos), hnew, by simp [computeLineNumber, hs], rfl,
+    (by show startPos + (errPos - startPos) = errPos; omega),
+    ?_, ?_, ?_, ?_, by simp [computeLineNumber, h2], ?_, ?_⟩
+  · cases r with
+    | none => simp
+    | some b => simp only [Option.getD_some]; simp only at hspec; omega
+  · cases r with
+    | none => simp only [Option.getD_none, hinput]; omega
+    | some b => simp only [Option.getD_some]; simp only at hspec; exact hspec.2.1
+  · intro hlt
+    cases r with
+    | none =>
+      -- impossible: the end of the snippet is a boundary and is ≥ offset+1
+      simp only at hspec
+      have := hspec (initial.drop startPos).length (by rw [hinput]; omega) (Nat.le_refl _)
+      rw [isCharBoundary_length] at this
+      exact absurd this (by simp)
+    | some b =>
+      simp only [Option.getD_some]; simp only at hspec
+      obtain ⟨a1, a2, a3, a4⟩ := hspec
+      exact ⟨by omega, a3, fun x hx hxb => a4 x (by omega) hxb⟩
+  · intro heq
+    cases r with
+    | none => simp
+    | some b =>
+      simp only at hspec
+      obtain ⟨a1, a2, _, _⟩ := hspec
+      rw [hinput] at a2
+      omega
+  · -- shown line = file line of errPos
+    simp only [snippetLine]
+    have hsplit : initial.take errPos = initial.take startPos ++ (initial.drop startPos).take (errPos - startPos) := by
+      have : errPos = startPos + (errPos - startPos) := by omega
+      conv => lhs; rw [this, List.take_add]
+    rw [hsplit, countLF_append]; omega
+  · have := countLF_take_le initial startPos errPos h1
+    simp only; omega
+
+/-! ## C14_file -/
+
+/-- **C14_file.**  `report::process` hands each entry to book-keeping together with the path and context the
+loader delivered *with that entry*.  So when book-keeping rejects the `i`-th delivered entry (all earlier ones
+having been accepted), the error context names the path delivered with entry `i`, its `line_start` is the line
+of that entry's first byte in *that* file's text, and its text is that entry's slice of that file.  (That the
+delivered path is the file being read is the loader's `callback(&path, &ctx, &entry)` with `path` the
+canonicalised path whose content is being parsed: `Model/Load.lean`, C11.) -/
+theorem C14_file {π : Type} (xs : List (Delivered π Entry)) (i : Nat) (x : BkErrS)
+    (hproc : Okane.process (xs.map (·.entry)) = .err (i, x))
+    (hvalid : ∀ d ∈ xs, d.pctx.validSlice = true) :
+    ∃ d ctx, xs[i]? = some d ∧ reportAt xs i = .ok (some ctx) ∧
+      ctx.path = d.path ∧
+      computeLineNumber d.pctx.initial d.pctx.span.start = .ok ctx.lineStart ∧
+      d.pctx.asStr = .ok ctx.text ∧ ctx.parsedSpan = d.pctx.span ∧
+      (∃ st', Okane.process ((xs.take i).map (·.entry)) = .ok st' ∧ stepEntry st' d.entry = .err x) := by
+  obtain ⟨_, hi, st', hpre, e, he, hstep⟩ := processFrom_err_index _ _ _ _ _ hproc
+  simp only [Nat.zero_add, List.length_map, Nat.sub_zero] at hi hpre he
+  have hd : xs[i]? = some xs[i] := List.getElem?_eq_getElem hi
+  have hmem : xs[i] ∈ xs := List.getElem_mem hi
+  obtain ⟨ctx, _, _, _, hnew, hpath, hfirst, hls, _, _, _, _, _, _⟩ :=
+    C14_bookkeep xs[i].path xs[i].pctx .other (hvalid _ hmem) (by simp [BkSpans.tracked])
+  obtain ⟨text, htext, _, _⟩ := asStr_length xs[i].pctx (hvalid _ hmem)
+  refine ⟨xs[i], ctx, hd, ?_, hpath, ?_, ?_, ?_, st', ?_, ?_⟩
+  · simp [reportAt, hd, hnew]
+  · rw [hfirst, hls]
+  · simp only [ErrorContext.new, PCtx.computeLineStart, hfirst, htext] at hnew
+    injection hnew with hnew
+    rw [← hnew]; exact htext
+  · simp only [ErrorContext.new, PCtx.computeLineStart, hfirst, htext] at hnew
+    injection hnew with hnew
+    rw [← hnew]
+  · simpa [Okane.process, List.map_take] using hpre
+  · have : e = xs[i].entry := by
+      simp [List.getElem?_map, hd] at he
+      exact he.symm
+    rw [← this]; exact hstep
+
+/-! ## non-vacuity and negation witnesses -/
+
+/-- a file with CRLF line ends, a blank line, multi-byte text and an entry starting on line 4 -/
+def sampleFile : Bytes := encode "; 日本語\r\n\r\n; é\r\n2024/01/01 x\r\n  A  1 USD\r\n  B\r\n".toList
+
+-- C14_line: the entry starts at byte 21; three line feeds precede it
+example : computeLineNumber sampleFile 21 = .ok 4 := by decide
+example : lfBefore sampleFile 21 = 3 := by decide
+-- C14_bookkeep's hypotheses are satisfiable: entry span 21..52 is a valid slice, tracked span of `A` inside it
+example : (PCtx.mk sampleFile ⟨21, 52⟩).validSlice = true := by decide
+example : (Range.mk 37 38).within ⟨21, 52⟩ := by simp [Range.within]
+example : (ErrorContext.new "f" (PCtx.mk sampleFile ⟨21, 52⟩)).map' (fun c => (c.lineStart, c.text.length))
+    = .ok (4, 31) := by decide
+example : resolve ⟨21, 52⟩ ⟨37, 38⟩ = .ok ⟨16, 17⟩ := by decide
+-- C14_syntax: error at byte 2 (the start of `日`): the span covers the whole 3-byte character
+example : (parseErrorNew (parseErrorFuel sampleFile) sampleFile 0 2).map' (fun e => (e.lineStart, e.errorSpan))
+    = .ok (1, ⟨2, 5⟩) := by decide
+-- ... and at end of input the span is empty (the F1a hang is gone)
+example : (parseErrorNew (parseErrorFuel sampleFile) sampleFile 21 sampleFile.length).map'
+    (fun e => (e.lineStart, e.errorSpan)) = .ok (4, ⟨31, 31⟩) := by decide
+-- negation witnesses: outside the hypotheses the panic sites are real
+example : computeLineNumber sampleFile 60 = .panic "compute_line_number: assert pos <= s.len()" := by decide
+example : clip ⟨21, 52⟩ ⟨3, 10⟩ = .panic "clip: attempt to subtract with overflow" := by decide
+example : (PCtx.mk sampleFile ⟨3, 52⟩).asStr = .panic "ParsedContext::span must be a valid UTF-8 boundary" := by decide
+
+end Okane.Diag
